@@ -30,14 +30,13 @@ Covers every data type `build_builder` accepts, at any nesting — including Utf
   `hsafe`    `Safe` (schema: no dictionary with non-nullable keys below a nullable struct / fixed-size list, no
              dictionary-keyed dictionary — `dict_placeholder_unstable`)
   `hraw`     `noRaw`: no raw `serialize_key`/`serialize_value` call streams inside the records
-  `hsmall`   `ViewSmall`: every bytes-view buffer of the final state is below 4 GiB (descriptors hold 32-bit lengths
-             and offsets; vacuous without view columns) -/
+(No size hypothesis: the view builders refuse lengths and buffer offsets beyond `i32::MAX`, so a descriptor never
+truncates — `viewPushValue_ok`, `view_value_exact`, `WFB_small`.) -/
 theorem C01_build_decode (ext : Ext) (fields : List Field) (rows : List SVal) (arrs : List Arr)
     (hmap : ∀ f ∈ fields, Lemmas.C03.Map2F f) (hschema : ∀ f ∈ fields, Lemmas.C03.SchemaOKF f)
     (hcov : fields.all Build.coveredF = true)
     (hsafe : ∀ root0, newRoot fields = .ok root0 → Safe root0)
     (hraw : ∀ x ∈ rows, Build.noRaw x = true)
-    (hsmall : ∀ root, runRows ext fields rows = .ok root → Lemmas.C03.ViewSmall root)
     (h : toMarrow ext fields rows = .ok arrs) :
     arrs.length = fields.length ∧
     ∃ cols : List (String × List LVal),
@@ -70,7 +69,7 @@ theorem C01_build_decode (ext : Ext) (fields : List Field) (rows : List SVal) (a
   obtain ⟨hw, _, _, _⟩ := runRows_rows ext fields rows root0 root h0 hs0
     (fun x hx => Build.noRaw_rawOK x (hraw x hx)) hrun
   obtain ⟨hall, hcols, p, fs, cached, next, seen, rfl, hdec⟩ :=
-    runRows_interp ext fields rows root0 root hcov h0 hs0 hraw hrun (hsmall root hrun)
+    runRows_interp ext fields rows root0 root hcov h0 hs0 hraw hrun
   have hfacts := Props.C03.root_facts ext fields rows _ hmap hschema (Build.push_takeRest ext) hw
     (Lemmas.C03.WFB_StrictDict _ hw) hrun
   simp only [buildArrays, bind, Except.bind] at hba
@@ -147,7 +146,7 @@ example : ∀ arrs, toMarrow {} exFields exRows = .ok arrs → arrs.length = exF
       ∀ (i : Nat) (hi : i < exRows.length), interpRow {} exFields exRows[i] =
         .ok (.struct (LFields.ofList (cols.map fun c => (c.1, c.2.getD i .null)))) := by
   intro arrs h
-  refine C01_build_decode {} exFields exRows arrs ?_ ?_ (by decide) ?_ (by decide) ?_ h
+  refine C01_build_decode {} exFields exRows arrs ?_ ?_ (by decide) ?_ (by decide) h
   · simp [exFields, Lemmas.C03.Map2F, Lemmas.C03.Map2]
   · simp [exFields, Lemmas.C03.SchemaOKF, Lemmas.C03.SchemaOK, Lemmas.C03.isIntDT]
   · intro root0 h0
@@ -157,8 +156,6 @@ example : ∀ arrs, toMarrow {} exFields exRows = .ok arrs → arrs.length = exF
           ⟨"d", false, []⟩ .nil)) [none, none] 0 [false, false]) from by decide] at h0
     cases h0
     simp [Safe, SafeL, B.isDict]
-  · intro root hr; rw [exRun] at hr; cases hr
-    simp [exRoot, Lemmas.C03.ViewSmall, Lemmas.C03.ViewSmallL]
 
 /-- what the two columns of the instance decode to: the long string and a null; "x" twice through the key 0 -/
 example : decRoot exRoot =
